@@ -90,6 +90,43 @@ def ob_key(ob):
     return base
 
 
+def start_bounded(spec, prop_id, tier, seed):
+    """Launch the bounded stand-in (E3) of a property as a subprocess under /venv/bin/python; returns (proc, outpath) or None."""
+    b = spec.get("bounded")
+    if not b:
+        return None
+    import subprocess, tempfile
+    fd, out = tempfile.mkstemp(prefix="e3_%s_" % prop_id, suffix=".json")
+    os.close(fd)
+    cmd = ["/venv/bin/python", os.path.join(VERIF, "e3", b["module"]), "--tier", tier, "--seed", str(seed), "--out", out] + list(b.get("args", []))
+    env = dict(os.environ)
+    env["PYTHONWARNINGS"] = "ignore"
+    log = open(out + ".log", "w")
+    return subprocess.Popen(cmd, cwd=VERIF, stdout=log, stderr=subprocess.STDOUT, env=env), out
+
+
+def finish_bounded(handle, timeout_s):
+    proc, out = handle
+    res = None
+    err = None
+    try:
+        proc.wait(timeout=timeout_s)
+    except Exception:
+        proc.kill()
+        err = "bounded check timed out after %ds" % timeout_s
+    try:
+        with open(out) as f:
+            res = json.load(f)
+    except Exception as e:
+        err = err or ("bounded check produced no result (%r); log tail: %s" % (e, open(out + ".log").read()[-1500:]))
+    for pth in (out, out + ".log"):
+        try:
+            os.unlink(pth)
+        except OSError:
+            pass
+    return res, err
+
+
 def read_known_findings():
     path = os.path.join(VERIF, "known_findings.txt")
     findings, fixed = [], []
@@ -99,8 +136,9 @@ def read_known_findings():
             if not line or line.startswith("#"):
                 continue
             if line.startswith("finding:"):
-                d = dict(kv.split("=", 1) for kv in line[len("finding:"):].split("|")[0].split() if "=" in kv)
-                d["text"] = line.split("|", 1)[1].strip() if "|" in line else ""
+                head, _, text = line[len("finding:"):].partition(" || ")
+                d = dict(kv.split("=", 1) for kv in head.split() if "=" in kv)
+                d["text"] = text.strip()
                 findings.append(d)
             elif line.startswith("fixed:"):
                 fixed.append(line)
@@ -127,6 +165,7 @@ def run_check(prop_id, tier="quick", seed=0):
         keys += [c.key for c in cs]
     timeout_s = 20 if tier == "quick" else 120
     both = tier == "thorough"
+    bounded_handle = start_bounded(spec, prop_id, tier, seed)
     ncpu = min(16, os.cpu_count() or 4)
     with mp.Pool(ncpu) as pool:
         gens = pool.map(_gen_worker, keys, chunksize=1)
@@ -191,7 +230,38 @@ def run_check(prop_id, tier="quick", seed=0):
             known_hits.append((hit, ob, rp))
         else:
             violations.append((ob, rp))
+    # ---- bounded stand-in (E3): failures are violations unless listed as known findings (matched by signature prefix)
+    bounded_res, bounded_err = (None, None)
+    bounded_viol, bounded_known = [], []
+    if bounded_handle is not None:
+        bounded_res, bounded_err = finish_bounded(bounded_handle, 900 if tier == "quick" else 3600)
+        if bounded_res is not None:
+            for fl in bounded_res.get("failures", []):
+                sig = fl.get("signature", "")
+                hit = None
+                for f in findings:
+                    if f.get("property") == prop_id and f.get("signature") and sig.startswith(f["signature"]):
+                        hit = f
+                        break
+                if hit is not None:
+                    bounded_known.append((hit, fl))
+                else:
+                    safe = "".join(ch if ch.isalnum() or ch in "._-" else "_" for ch in sig)[:120]
+                    path = os.path.join("replays", "%s__bounded__%s.json" % (prop_id, safe))
+                    with open(os.path.join(VERIF, path), "w") as fh:
+                        json.dump(dict(property=prop_id, kind="bounded-case", signature=sig, clause=fl.get("clause"), detail=fl.get("detail"),
+                                       repro=fl.get("repro"), module=spec["bounded"]["module"], confirmed=True,
+                                       how="observed on the real model by the bounded stand-in (E3)"), fh, indent=1, default=str)
+                    bounded_viol.append((fl, path))
     printed = set()
+    for hit, fl in bounded_known:
+        line = "KNOWN-FINDING: property=%s %s %s" % (prop_id, hit.get("signature"), hit.get("text", ""))
+        if line not in printed:
+            print(line)
+            printed.add(line)
+    for fl, path in bounded_viol:
+        print("VIOLATION property=%s replay=%s" % (prop_id, path))
+        print("   bounded case %s: %s -- %s" % (fl.get("signature"), fl.get("clause"), str(fl.get("detail"))[:200]))
     for hit, ob, rp in known_hits:
         line = "KNOWN-FINDING: property=%s %s %s" % (prop_id, hit.get("obligation"), hit.get("text", ""))
         if line not in printed:
@@ -221,20 +291,41 @@ def run_check(prop_id, tier="quick", seed=0):
             "samples": [dict(name=p["name"], verdict=p["verdict"], backend=p["backend"], time=p["time"]) for p in per_ob[:12]],
             "per_obligation": per_ob,
             "explanation": spec.get("explanation", ""),
-            "bounded": spec.get("bounded_note", "none in this check"),
+            "bounded": (dict(note="BOUNDED stand-in (E3), never counted as proved: contract clauses evaluated on real model runs over an enumerated finite input set",
+                             module=spec["bounded"]["module"], lattice=(bounded_res or {}).get("lattice"), cases=(bounded_res or {}).get("cases"),
+                             distinct_nontrivial=(bounded_res or {}).get("distinct_nontrivial"), rule=(bounded_res or {}).get("rule"),
+                             failures=[f.get("signature") for f in (bounded_res or {}).get("failures", [])],
+                             known_findings_matched=sorted({h.get("signature") for h, _ in bounded_known}),
+                             samples=(bounded_res or {}).get("samples", [])[:6], wall_s=(bounded_res or {}).get("wall_s"),
+                             extra={k: v for k, v in (bounded_res or {}).items() if k in ("residue_max", "cr_report_gap_max", "days_checked", "model_raised")},
+                             harness_exceptions=(bounded_res or {}).get("exceptions"), error=bounded_err)
+                        if spec.get("bounded") else "none in this check"),
         },
         "assumptions": ASSUMPTIONS + spec.get("assumptions", []),
         "wall_s": round(time.time() - t_start, 2),
-        "violations": len(violations),
+        "violations": len(violations) + len(bounded_viol),
     }
+    if spec.get("level", "proof") != "proof" or n_ob == 0:
+        # bounded-only (or mainly bounded) checks report in the generic exploration keys
+        ev["coverage"]["evaluations"] = int((bounded_res or {}).get("cases") or 0) + n_ob
+        ev["coverage"]["distinct_nontrivial"] = int((bounded_res or {}).get("distinct_nontrivial") or 0) + n_dis
+        ev["coverage"]["rule"] = ((bounded_res or {}).get("rule") or "") + " | plus E1 obligations (each a distinct named formula), counted in 'obligations'"
+        if not ev["coverage"]["samples"]:
+            ev["coverage"]["samples"] = (bounded_res or {}).get("samples", [])[:6]
     os.makedirs(os.path.join(VERIF, "evidence"), exist_ok=True)
     with open(os.path.join(VERIF, "evidence", (prop_id if not prop_id.startswith("fn:") else "_dev") + ".json"), "w") as f:
         json.dump(ev, f, indent=1)
-    print("%s [%s]: %d obligations, %d discharged, %d refuted (%d known), %d undecided, %d functions, %.1fs"
-          % (prop_id, tier, n_ob, n_dis, len(refuted), len(known_hits), len(unknown), len(gens), time.time() - t_start))
-    if violations:
+    print("%s [%s]: %d obligations, %d discharged, %d refuted (%d known), %d undecided, %d functions; bounded: %s cases, %d failures (%d known); %.1fs"
+          % (prop_id, tier, n_ob, n_dis, len(refuted), len(known_hits), len(unknown), len(gens),
+             (bounded_res or {}).get("cases", "-"), len((bounded_res or {}).get("failures", [])) if bounded_res else 0, len(bounded_known), time.time() - t_start))
+    if violations or bounded_viol:
         return 1
-    if tool_limits or errors or solver_errors or vacuous or n_ob == 0:
+    if bounded_err:
+        print("CHECKER-ERROR bounded stand-in: %s" % bounded_err)
+        return 3
+    if bounded_res is not None and bounded_res.get("exceptions"):
+        print("NOTE bounded stand-in harness notes: %s" % str(bounded_res.get("exceptions"))[:300])
+    if tool_limits or errors or solver_errors or vacuous or (n_ob == 0 and not spec.get("bounded")):
         for k, t in tool_limits:
             print("TOOL-LIMIT %s: %s" % (k[1], t))
         for k, e in errors:
@@ -243,7 +334,7 @@ def run_check(prop_id, tier="quick", seed=0):
             print("SOLVER-ERROR %s: %s" % (n, e))
         for v in vacuous:
             print("VACUOUS %s: the hypotheses are contradictory" % v)
-        if n_ob == 0:
+        if n_ob == 0 and not spec.get("bounded"):
             print("CHECKER-ERROR: zero obligations generated")
         return 3
     if unknown:
